@@ -36,6 +36,10 @@ type Ar struct {
 	N    int64
 }
 
+// Bx: a local variable whose address was taken: it lives in the heap at P
+// (reads and writes of the variable go through the heap, so they alias *P).
+type Bx struct{ P *Term }
+
 // Tu: tuple of results.
 type Tu struct{ Vs []Value }
 
@@ -291,6 +295,11 @@ func (x *Exec) typeFacts(t types.Type, v Value) *Term {
 		if ii, ok := intInfoOf(t); ok {
 			return x.ar.rangeFact(v.T, ii)
 		}
+		if isRefType(t) && v.T.S.Kind == SInt && preStateTerm(v.T) {
+			// an object reachable in the heap as it was on entry was allocated
+			// before the call: it is not one this unit allocates (see alloc)
+			return ILe(v.T, allocFrontier)
+		}
 		return True
 	case Sl:
 		zero := x.ar.idxC(0)
@@ -319,6 +328,94 @@ func (x *Exec) typeFacts(t types.Type, v Value) *Term {
 		return And(fs...)
 	}
 	return True
+}
+
+// allocFrontier: the largest object identity in use when the unit is entered.
+var allocFrontier = Var("alloc0", IntSort)
+
+// frontier: the largest object identity allocated so far on this path (the
+// entry frontier plus whatever this unit and its callees allocated).
+func (x *Exec) frontier(st *State) *Term {
+	if f, ok := st.ghosts["$frontier"].(Sc); ok {
+		return f.T
+	}
+	return allocFrontier
+}
+
+// bumpFrontier: unknown code (a callee, earlier loop iterations) may have
+// allocated: the frontier moves to an unknown, not smaller, identity.
+func (x *Exec) bumpFrontier(st *State) {
+	old := x.frontier(st)
+	nf := x.freshTerm("frontier", IntSort)
+	st.add(ILe(old, nf))
+	st.ghosts["$frontier"] = Sc{nf}
+}
+
+var allocMention = map[*Term]bool{}
+
+// mentionsAllocFrontier: t speaks about the allocation frontier (memoised).
+func mentionsAllocFrontier(t *Term) bool {
+	if v, ok := allocMention[t]; ok {
+		return v
+	}
+	r := false
+	if t.Op == "var" {
+		r = t.Name == "alloc0" || strings.HasPrefix(t.Name, "frontier!")
+	} else {
+		for _, a := range t.Args {
+			if mentionsAllocFrontier(a) {
+				r = true
+				break
+			}
+		}
+	}
+	allocMention[t] = r
+	return r
+}
+
+// dropAllocConjuncts removes the conjuncts of t that mention the allocation
+// frontier (nil when nothing is left).
+func dropAllocConjuncts(t *Term) *Term {
+	if !mentionsAllocFrontier(t) {
+		return t
+	}
+	if t.Op == "=>" && len(t.Args) == 2 && !mentionsAllocFrontier(t.Args[0]) {
+		// guarded facts of a merged branch
+		if k := dropAllocConjuncts(t.Args[1]); k != nil {
+			return Implies(t.Args[0], k)
+		}
+		return nil
+	}
+	if t.Op != "and" {
+		return nil
+	}
+	var keep []*Term
+	for _, a := range t.Args {
+		if k := dropAllocConjuncts(a); k != nil {
+			keep = append(keep, k)
+		}
+	}
+	if len(keep) == 0 {
+		return nil
+	}
+	return And(keep...)
+}
+
+func isRefType(t types.Type) bool {
+	switch t.Underlying().(type) {
+	case *types.Pointer, *types.Map, *types.Chan:
+		return true
+	}
+	return false
+}
+
+// preStateTerm: t is read out of a heap array as it was on entry (a chain of
+// selects rooted at an H0:... array, with no store in between).
+func preStateTerm(t *Term) bool {
+	for t.Op == "select" && len(t.Args) == 2 {
+		t = t.Args[0]
+	}
+	return t.Op == "var" && strings.HasPrefix(t.Name, "H0:") && !strings.HasPrefix(t.Name, "H0:ghost:") && !strings.HasPrefix(t.Name, "H0:map:")
 }
 
 // fresh creates an unconstrained well-typed value.
@@ -579,6 +676,9 @@ func sameValue(a, b Value) bool {
 	case Fv:
 		bv, ok := b.(Fv)
 		return ok && bv.Lit == av.Lit
+	case Bx:
+		bv, ok := b.(Bx)
+		return ok && bv.P == av.P
 	}
 	return false
 }
